@@ -709,6 +709,40 @@ func isNil(v value) bool {
 	return tst
 }
 
+// unref follows a setting that is exactly one reference (to a reference ...)
+// to the value it stands for: such a setting takes the referenced value with
+// its type. A reference that can not be evaluated is returned as it is, the
+// failure is reported where the value is used.
+func unref(opts *options, v value) value {
+	if _, ok := v.(*cfgDynamic); !ok {
+		return v
+	}
+
+	// the references followed stay active until the end of the chain is
+	// reached: a chain leading back into itself ends with a cyclic error
+	active := opts.activeFields
+	opts.activeFields = newFieldSet(active)
+	defer func() { opts.activeFields = active }()
+
+	cur := v
+	for {
+		dyn, ok := cur.(*cfgDynamic)
+		if !ok {
+			return cur
+		}
+		next, err := dyn.getValue(opts)
+		if err != nil || next == nil {
+			return v
+		}
+		cur = next
+	}
+}
+
+// isNilRef: v is null, or a reference to null.
+func isNilRef(opts *options, v value) bool {
+	return isNil(v) || isNil(unref(opts, v))
+}
+
 func isSub(v value) bool {
 	if v == nil {
 		return false
